@@ -361,13 +361,19 @@ def durable_execution(
                 serialized_result = json.dumps(result)
                 # large response handling here. Remember if checkpointing to complete, NOT to include
                 # payload in response
-                if (
-                    serialized_result
-                    and len(serialized_result) > LAMBDA_RESPONSE_SIZE_LIMIT
-                ):
+                # The result travels as a string inside the response: its quotes and backslashes are
+                # escaped once more on the wire, so measure the response, not the result alone.
+                response_size = len(
+                    json.dumps(
+                        DurableExecutionInvocationOutput.create_succeeded(
+                            result=serialized_result
+                        ).to_dict()
+                    )
+                )
+                if serialized_result and response_size > LAMBDA_RESPONSE_SIZE_LIMIT:
                     logger.debug(
                         "Response size (%s bytes) exceeds Lambda limit (%s) bytes). Checkpointing result.",
-                        len(serialized_result),
+                        response_size,
                         LAMBDA_RESPONSE_SIZE_LIMIT,
                     )
                     success_operation = OperationUpdate.create_execution_succeed(
